@@ -78,9 +78,16 @@ COSTED = {
     "sha256_crypt": (1000, 1400, 1), "sha512_crypt": (1000, 1400, 1), "bcrypt": (4, 6, 1), "pbkdf2_sha256": (1, 60, 1),
     "pbkdf2_sha1": (1, 60, 1), "pbkdf2_sha512": (1, 40, 1), "phpass": (7, 10, 1), "sha1_crypt": (1, 60, 1), "bsdi_crypt": (1, 199, 2),
     "scrypt": (1, 4, 1), "django_pbkdf2_sha256": (1, 60, 1), "bcrypt_sha256": (4, 5, 1),
+    # second batch: wrappers (settings travel through PrefixWrapper) and further families
+    "django_pbkdf2_sha1": (1, 60, 1), "grub_pbkdf2_sha512": (1, 40, 1), "ldap_sha512_crypt": (1000, 1400, 1), "ldap_sha256_crypt": (1000, 1400, 1),
+    "ldap_sha1_crypt": (1, 60, 1), "fshp": (1, 60, 1), "ldap_bcrypt": (4, 6, 1), "django_bcrypt": (4, 6, 1),
 }
 FIXED = ["md5_crypt", "apr_md5_crypt", "des_crypt", "ldap_salted_sha1", "ldap_sha1", "hex_md5", "django_salted_sha1", "mysql41", "nthash",
-         "ldap_md5", "ldap_salted_md5", "hex_sha1", "ldap_md5_crypt", "hex_md4", "lmhash"]
+         "ldap_md5", "ldap_salted_md5", "hex_sha1", "ldap_md5_crypt", "hex_md4", "lmhash",
+         "ldap_salted_sha256", "ldap_salted_sha512", "django_salted_md5", "mssql2005", "oracle11", "hex_sha256", "hex_sha512", "ldap_des_crypt"]
+# PrefixWrapper objects (not classes): cannot be subclassed into counting / faulty hashers
+WRAPPERS = ("ldap_md5_crypt", "ldap_sha256_crypt", "ldap_sha512_crypt", "ldap_sha1_crypt", "ldap_des_crypt", "ldap_bsdi_crypt", "ldap_bcrypt",
+            "django_bcrypt")
 # formats that claim each other's strings (32 hex digits): attribution goes to the first one configured
 HEX32 = ("hex_md5", "nthash", "hex_md4", "lmhash")
 C08_PALETTE = ["des_crypt", "bsdi_crypt", "md5_crypt", "apr_md5_crypt", "sha1_crypt", "sha256_crypt", "sha512_crypt", "bcrypt", "bcrypt_sha256",
@@ -361,7 +368,7 @@ def _gen_config_program(rng, tier):
         # a scheme that takes a context keyword: calls then carry user=, which the context must keep filtering for the others
         cfg["schemes"].insert(rng.randint(0, len(cfg["schemes"])), rng.choice(USER_SCHEMES))
     # custom (unregistered) hashers can only wrap real classes, not PrefixWrapper objects
-    faulty = rng.random() < 0.45 and "ldap_md5_crypt" not in cfg["schemes"]
+    faulty = rng.random() < 0.45 and not any(w in cfg["schemes"] for w in WRAPPERS)
     ops = []
     for _ in range(rng.randint(3, 9 if tier == "quick" else 14)):
         k = rng.choices(["export_import", "empty_update", "valid_update", "failed_using", "failed_item", "failed_file", "copy"],
